@@ -17,12 +17,16 @@ CHECKS = {
             'N <= 4 nodes per type; finite probe alphabet', EXPL, 'DESIGN.md 3 C04'),
     'C05': ('exploration', 'every operator-labelled expression skeleton with <=3 (thorough 4) operator nodes over + - * / ^, unary minus and the documented functions, leaves from colliding identifier sets, in 4 surface variants and 3 equation forms, evaluated on both paths of the real code (parser + eval_node; generated source) at 3 valuations and compared with python-ast/NumPy evaluation',
             'finite valuations instead of all reals; expressions larger than the bound; index helpers on arrays are covered by C01/C04/C09 models only; valuations outside the real domain of an expression are rejected', EXPL, 'DESIGN.md 3 C05'),
+    'C07': ('model_checking', 'every history of <=2 (thorough 3) operations from {update_var scalar / wildcard / per-node array on constants, initial values and input defaults, update_var(edge_vars), apply(node_values)} on flat and hierarchical templates whose nodes share NodeTemplate and OperatorTemplate objects; after every history the compiled arguments, initial state, input defaults and edge weights (vectorize on/off) are compared with a plain dict reference model',
+            'values from a small alphabet; histories longer than the bound; update_template-based replacement of nodes is covered by C14 seeds only', MC, 'DESIGN.md 3 C07'),
     'C08': ('exploration', 'pure integrators in 1-4 nodes at hierarchy depth 0-2 x every listed target selection (single, wildcard, hierarchical, two inputs on one variable, edge onto the same variable) x array shapes (N,), (N,1), (N,n) with strictly distinct samples x solver x backend x vectorize: trajectories of run() and values of the compiled function at on-grid, mid-grid and out-of-range t vs a dict-state reference (sample k during step k; np.interp on linspace(0,T,N) and its exact integral for adaptive solvers)',
             'input values from one deterministic table; N <= 13 samples; quick tier covers torch/jax/fortran on a slice only', EXPL, 'DESIGN.md 3 C08'),
     'C09': ('exploration', 'ramp sources x 1-3 targets x per-edge delay in {none, 2dt, 3dt, 2.4dt, 2.6dt, 5dt} over shared-source, parallel, shared-target and feedback topologies x vectorize: every euler trajectory of run() compared row by row with the reference recurrence with explicit history (src[k-D], zero before start, undelayed edges read src[k])',
             'delays below two steps are outside the property; Connectivity (matrix) delays are covered by C16; one dt', EXPL, 'DESIGN.md 3 C09'),
     'C13': ('model_checking', 'breadth-first search over all sequences (depth 2 quick, 3 thorough) of an operation alphabet of 50 public API calls on 7 models engineered to collide (same operator name, same structure, shared NodeTemplate object, YAML cache, edges+inputs); every history replayed on the real code from the import-time state, states hashed over all module-level containers + working directory + stored templates; every op must observe what it observes as the first op of a pristine interpreter, and functions returned earlier are re-evaluated after every step',
             'histories longer than the bound; Fortran file-name re-use is not explored; worker reset is cross-checked against fresh interpreters on every run', MC, 'DESIGN.md 3 C13'),
+    'C14': ('model_checking', 'seeds {flat, depth-1, depth-2, shared operators with per-node overrides, YAML-derived} x every sequence of <=1 (thorough 2) legitimate mutators x every sequence of <=2 (3 on a sub-alphabet) of the 14 listed read-only / copy-making operations; after every operation the canonical dump of the template (equations, declared values, per-node variations, edges, edge map, object sharing, state bookkeeping) must be unchanged, at the end the vector field must equal that of a pristine twin and repeated run(in_place=False) must return identical frames',
+            'an operation that raises is not counted as a violation unless it changed the template; five seeds', MC, 'DESIGN.md 3 C14'),
     'C19': ('model_checking', 'explicit-state search of all update sequences up to depth 6/7 on the real DDEHistory class, every query of a lattice checked in every state against a list-based reference',
             'values outside the finite alphabets (3 deltas, 3 y vectors, 3 shapes, 3 dtypes) and sequences longer than the bound are not covered, except one 3000-step run through the real capacity', MC, 'DESIGN.md 3 C19'),
 }
